@@ -395,6 +395,7 @@ func (c *connection) reset(k key, s Stream, ts time.Time) {
 	c.first, c.last = nil, nil
 	c.nextSeq = invalidSequence
 	c.created = ts
+	c.lastSeen = ts
 	c.stream = s
 	c.closed = false
 }
